@@ -24,11 +24,15 @@ def cases(tier, seed):
     out = []
     states = ["", "p", "pd", "prd", "ppp"]
     for st in states:
-        for direction in ("submit|shutdown", "shutdown|submit", "shutdown|complete", "shutdown|shutdown"):
+        for direction in ("submit|shutdown", "shutdown|submit", "shutdown|complete", "shutdown|shutdown", "shutdown|start"):
             for resub in (False, True):
                 out.append({"name": "cos.race/%s/%s/resub=%s" % (direction, st or "-", int(resub)), "kind": "sweep",
                             "dir": direction, "earlier": st, "resub": resub,
                             "cap": 40 if tier == "quick" else None})
+    for st in ("p", "pr", "prd", "ppp"):
+        for direction in ("submit|shutdown", "shutdown|submit", "shutdown|complete"):
+            out.append({"name": "cos.race-cancel_futures/%s/%s" % (direction, st), "kind": "sweep", "dir": direction, "earlier": st,
+                        "resub": False, "cap": None, "cancel_futures": True})
     for st in ("ppp", "prd", "pppppp"):
         for direction in ("shutdown|complete", "shutdown|submit", "submit|shutdown"):
             out.append({"name": "cos.race-instr/%s/%s" % (direction, st), "kind": "sweep", "dir": direction, "earlier": st, "resub": False,
@@ -81,7 +85,10 @@ class CosScenario(object):
         return f
 
     def do_shutdown(self, ctx):
-        call("shutdown", ctx.ex.shutdown, True)
+        if self.case.get("cancel_futures"):
+            call("shutdown", ctx.ex.shutdown, True, cancel_futures=True)
+        else:
+            call("shutdown", ctx.ex.shutdown, True)
         # state of every future at the moment shutdown returned
         ctx.snapshot = [(f, f.done()) for f in list(ctx.returned)]
         ctx.shutdown_ret_seq = LOG.add("shutdown.returned")
@@ -100,6 +107,13 @@ class CosScenario(object):
         elif self.case["dir"].endswith("|shutdown"):
             # a second shutdown() while the first is under way
             call("shutdown", ctx.ex.shutdown, True, _tag="second")
+        elif self.case["dir"].endswith("|start"):
+            # the delegate's workers pick up every queued future while shutdown() is under way
+            for i in ctx.me.pending():
+                try:
+                    ctx.me.mark_running(i)
+                except Exception:
+                    pass
         elif self.case["dir"].endswith("complete"):
             # every outstanding future finishes by itself while shutdown() is under way
             for i in ctx.me.pending():
